@@ -462,7 +462,7 @@ Qed.
 Lemma es_ok ck body : calls_ok (calls_es ck body) (entries_es ck body).
 Proof. unfold calls_es, entries_es. exact (es_lines_ok body [] (ck_nows ck)). Qed.
 
-Lemma ddmet_ok body : calls_ok (calls_ddmet body) (entries_ddmet body).
+Lemma ddmet_ok ck body : calls_ok (calls_ddmet ck body) (entries_ddmet ck body).
 Proof.
   unfold calls_ddmet, entries_ddmet. apply calls_ok_map. intros s _.
   rewrite fast_fill_spec, !repeat_map_const. split.
